@@ -1,5 +1,6 @@
 import Fpdec.Kernels.Misc
 import Fpdec.Kernels.Cmp
+import Fpdec.Kernels.Rkyv
 import Fpdec.Lemmas.Cmp
 import Fpdec.Props.C08_Sites
 
@@ -12,9 +13,13 @@ import Fpdec.Props.C08_Sites
 * `eq_int_spec`, `cmp_dec_int_spec`, `cmp_int_dec_spec`: comparisons with the 9 integer types, both operand orders.
 * `value_order_*`: the value comparison is reflexive, antisymmetric (swap) and transitive; equality under it is equality of the
   rationals — so `<, <=, >, >=, min, max` (std's default methods on top of `partial_cmp`/`cmp`) inherit a total order.
-rkyv: `ArchivedDecimal` uses the same macro bodies (`impl_partial_eq!`, `impl_partial_ord!`) over the same two fields; archiving,
-byte validation and deserialisation are rkyv's code and are exercised by the correspondence run with the `rkyv` (and `rkyv,packed`)
-feature, not modelled (partial).
+* rkyv (`rkyv_*`): an `ArchivedDecimal` is the pair of its two fields.  The *translated* impls of this run — the macro bodies
+  `impl_partial_eq!` / `impl_partial_ord!` instantiated for `(ArchivedDecimal, ArchivedDecimal)` and `(Decimal, ArchivedDecimal)`,
+  the two forwarding impls `Decimal == ArchivedDecimal` / `Decimal.partial_cmp(&ArchivedDecimal)`, `Ord for ArchivedDecimal`,
+  `Archive::resolve` and `Deserialize` of the hand-written packed layout — are proved to make archive ∘ deserialise the identity
+  and every archived comparison the comparison of the exact values (`rkyv_roundtrip`, `rkyv_eq_spec`, `rkyv_cmp_spec`,
+  `rkyv_mixed_spec`, `rkyv_ord_never_panics`).  rkyv's own code (byte layout of the derived impl, `check_bytes`, alignment) is
+  exercised by the correspondence run with the `rkyv` and `rkyv,packed` features, not modelled.
 -/
 
 namespace Fpdec.Props.C08
@@ -83,5 +88,81 @@ theorem kernel_uint_cmp_decimal (prof : Profile) (i : Nat) (d : Dec) :
 /-- `impl Ord for Decimal`: `partial_cmp(..).unwrap()`, as translated on this run -/
 theorem kernel_decimal_cmp (prof : Profile) (x y : Dec) (hp : x.nfrac < 256) (hq : y.nfrac < 256) :
     Gen.K.decimal_cmp prof x y = Model.cmp x y := Kernels.decimal_cmp_eq prof x y hp hq
+
+/-! ### feature rkyv: the translated `ArchivedDecimal` impls -/
+theorem kernel_archived_eq_archived (prof : Profile) (x y : Dec) (hp : x.nfrac < 256) (hq : y.nfrac < 256) :
+    Gen.K.archived_eq_archived prof x y = .ok (decimalEq x y) := Kernels.archived_eq_archived_eq prof x y hp hq
+theorem kernel_archived_eq_decimal (prof : Profile) (x y : Dec) (hp : x.nfrac < 256) (hq : y.nfrac < 256) :
+    Gen.K.archived_eq_decimal prof x y = .ok (decimalEq x y) := Kernels.archived_eq_decimal_eq prof x y hp hq
+theorem kernel_decimal_eq_archived (prof : Profile) (x y : Dec) (hp : x.nfrac < 256) (hq : y.nfrac < 256) :
+    Gen.K.decimal_eq_archived prof x y = .ok (decimalEq y x) := Kernels.decimal_eq_archived_eq prof x y hp hq
+theorem kernel_archived_cmp_archived (prof : Profile) (x y : Dec) (hp : x.nfrac < 256) (hq : y.nfrac < 256) :
+    Gen.K.archived_cmp_archived prof x y = .ok (partialCmp x y) := Kernels.archived_cmp_archived_eq prof x y hp hq
+theorem kernel_archived_cmp_decimal (prof : Profile) (x y : Dec) (hp : x.nfrac < 256) (hq : y.nfrac < 256) :
+    Gen.K.archived_cmp_decimal prof x y = .ok (partialCmp x y) := Kernels.archived_cmp_decimal_eq prof x y hp hq
+theorem kernel_decimal_cmp_archived (prof : Profile) (x y : Dec) (hp : x.nfrac < 256) (hq : y.nfrac < 256) :
+    Gen.K.decimal_cmp_archived prof x y = .ok ((partialCmp y x).map Ordering.swap) :=
+  Kernels.decimal_cmp_archived_eq prof x y hp hq
+theorem kernel_archived_basics (prof : Profile) (d : Dec) :
+    Gen.K.archived_eq_zero prof d = .ok (eqZero d) ∧ Gen.K.archived_is_negative prof d = .ok (isNegative d) ∧
+    Gen.K.archived_is_positive prof d = .ok (isPositive d) ∧ Gen.K.archived_eq_one prof d = Gen.K.decimal_eq_one prof d ∧
+    Gen.K.archived_coefficient prof d = .ok d.coeff ∧ Gen.K.archived_n_frac_digits prof d = .ok d.nfrac ∧
+    Gen.K.decimal_coefficient prof d = .ok d.coeff ∧ Gen.K.decimal_n_frac_digits prof d = .ok d.nfrac :=
+  ⟨rfl, rfl, rfl, rfl, rfl, rfl, rfl, rfl⟩
+
+/-- archiving (what `Archive::resolve` writes, after `Serialize` succeeded) followed by `Deserialize` is the identity -/
+theorem rkyv_roundtrip (prof : Profile) (d : Dec) :
+    Gen.K.decimal_serialize prof d = .ok (.ok ()) ∧
+    (Gen.K.decimal_resolve prof d >>= Gen.K.archived_deserialize prof) = .ok (.ok d) := by
+  refine ⟨rfl, ?_⟩
+  rw [Kernels.decimal_resolve_eq]; rfl
+
+/-- archived values compare with each other exactly like the values they were archived from: by exact value -/
+theorem rkyv_eq_spec (prof : Profile) (x y : Dec) (hx : Dom x) (hy : Dom y) :
+    (do let ax ← Gen.K.decimal_resolve prof x; let ay ← Gen.K.decimal_resolve prof y; Gen.K.archived_eq_archived prof ax ay)
+      = .ok (Spec.cmp x.coeff x.nfrac y.coeff y.nfrac == .eq) := by
+  simp only [Kernels.decimal_resolve_eq, Kernels.bind_ok']
+  rw [Kernels.archived_eq_archived_eq prof x y (by have := hx.2.2; omega) (by have := hy.2.2; omega)]
+  rw [decimalEq_spec x y hx hy]
+
+theorem rkyv_cmp_spec (prof : Profile) (x y : Dec) (hx : Dom x) (hy : Dom y) :
+    (do let ax ← Gen.K.decimal_resolve prof x; let ay ← Gen.K.decimal_resolve prof y; Gen.K.archived_cmp_archived prof ax ay)
+      = .ok (some (Spec.cmp x.coeff x.nfrac y.coeff y.nfrac)) := by
+  simp only [Kernels.decimal_resolve_eq, Kernels.bind_ok']
+  rw [Kernels.archived_cmp_archived_eq prof x y (by have := hx.2.2; omega) (by have := hy.2.2; omega)]
+  rw [partialCmp_spec x y hx hy]
+
+/-- mixed comparisons, both operand orders: `archived(x) ⋈ y` and `x ⋈ archived(y)` are the comparison of the exact values -/
+theorem rkyv_mixed_spec (prof : Profile) (x y : Dec) (hx : Dom x) (hy : Dom y) :
+    (do let ax ← Gen.K.decimal_resolve prof x; Gen.K.archived_cmp_decimal prof ax y)
+      = .ok (some (Spec.cmp x.coeff x.nfrac y.coeff y.nfrac)) ∧
+    (do let ay ← Gen.K.decimal_resolve prof y; Gen.K.decimal_cmp_archived prof x ay)
+      = .ok (some (Spec.cmp x.coeff x.nfrac y.coeff y.nfrac)) ∧
+    (do let ax ← Gen.K.decimal_resolve prof x; Gen.K.archived_eq_decimal prof ax y)
+      = .ok (Spec.cmp x.coeff x.nfrac y.coeff y.nfrac == .eq) ∧
+    (do let ay ← Gen.K.decimal_resolve prof y; Gen.K.decimal_eq_archived prof x ay)
+      = .ok (Spec.cmp x.coeff x.nfrac y.coeff y.nfrac == .eq) := by
+  have hp : x.nfrac < 256 := by have := hx.2.2; omega
+  have hq : y.nfrac < 256 := by have := hy.2.2; omega
+  simp only [Kernels.decimal_resolve_eq, Kernels.bind_ok']
+  refine ⟨?_, ?_, ?_, ?_⟩
+  · rw [Kernels.archived_cmp_decimal_eq prof x y hp hq, partialCmp_spec x y hx hy]
+  · rw [Kernels.decimal_cmp_archived_eq prof x y hp hq, partialCmp_spec y x hy hx]
+    simp only [Option.map_some]
+    rw [← value_order_antisymm]
+  · rw [Kernels.archived_eq_decimal_eq prof x y hp hq, decimalEq_spec x y hx hy]
+  · rw [Kernels.decimal_eq_archived_eq prof x y hp hq, decimalEq_spec y x hy hx]
+    congr 1
+    rw [value_order_antisymm x.coeff x.nfrac y.coeff y.nfrac]
+    generalize Spec.cmp x.coeff x.nfrac y.coeff y.nfrac = o
+    cases o <;> rfl
+
+/-- `Ord for ArchivedDecimal` never panics (its `unwrap` is of a `Some`) -/
+theorem rkyv_ord_never_panics (prof : Profile) (x y : Dec) (hx : Dom x) (hy : Dom y) :
+    Gen.K.archived_ord_cmp prof x y = .ok (Spec.cmp x.coeff x.nfrac y.coeff y.nfrac) := by
+  rw [Kernels.archived_ord_cmp_eq prof x y (by have := hx.2.2; omega) (by have := hy.2.2; omega), partialCmp_spec x y hx hy]
+
+example : (Gen.K.decimal_resolve Profile.dev ⟨-50, 2⟩ >>= fun a => Gen.K.archived_cmp_decimal Profile.dev a ⟨-5, 1⟩) = .ok (some .eq) := by
+  decide
 
 end Fpdec.Props.C08
